@@ -390,6 +390,34 @@ def _guards(model, res, opaque, E):
             if not ok:
                 res.violation('R5', 'function:DATEDIF:start-after-end', m.where(f), 'DATEDIF with the start later than the end must give #NUM!; got %r' % (o,), func=f.name)
     res.soft_floor('DATEDIF traces with start > end', n, 1)
+    # ... for every unit, on constant dates (a start one day, one month and one year after the end)
+    import datetime as _dtm
+    from fractions import Fraction as _Fr
+
+    def cdt(y, mo, d):
+        delta = _dtm.datetime(y, mo, d) - _dtm.datetime(1970, 1, 1)
+        return Aff(0, _Fr(delta.days * 86400 + delta.seconds), 'dt')
+    n_units = 0
+    for unit in ('d', 'm', 'y', 'ym', 'yd', 'md'):
+        for (sy, smo, sd), (ey, emo, ed) in (((2020, 10, 6), (2020, 10, 5)), ((2020, 11, 5), (2020, 10, 5)), ((2020, 10, 5), (2019, 10, 6)),
+                                            ((2021, 3, 1), (2020, 2, 29))):
+            try:
+                outs = [o for o in _runs(model, 'DATEDIF', lambda: [cdt(sy, smo, sd), cdt(ey, emo, ed), Const(unit)], opaque) if not o.imprecise]
+            except Unmodelled as e:
+                res.ob('R5', 'DATEDIF', {'unit': unit, 'start': [sy, smo, sd], 'end': [ey, emo, ed]}, True, 'undecided: %s' % e)
+                continue
+            if len(outs) != 1:
+                res.ob('R5', 'DATEDIF', {'unit': unit, 'start': [sy, smo, sd], 'end': [ey, emo, ed]}, True, 'undecided: %d outcomes' % len(outs))
+                continue
+            n_units += 1
+            o = outs[0]
+            ok = o.kind == 'return' and isinstance(o.value, Err) and o.value.name == E['#NUM!']
+            res.ob('R5', 'DATEDIF', {'unit': unit, 'start': [sy, smo, sd], 'end': [ey, emo, ed]}, ok, repr(o)[:80])
+            if not ok:
+                res.violation('R5', 'function:DATEDIF:start-after-end:%s' % unit, m.where(f),
+                              'DATEDIF(%04d-%02d-%02d, %04d-%02d-%02d, "%s") - the start is later than the end - must give #NUM!; got %r'
+                              % (sy, smo, sd, ey, emo, ed, unit, o), case={'unit': unit}, func=f.name)
+    res.soft_floor('DATEDIF start-after-end rows decided', n_units, 12)
 
 
 def _eval_atom(v, env):
